@@ -445,7 +445,8 @@ NoLeak == KfClean => st.leaked = 0
 
 (* C20: no "can't fail" unwrap is ever hit, and the machine makes progress *)
 NoPanic == ~st.panicked
-StepBound == st.steps <= 400
+(* (the bound is generous: linear in the input for the grammars of the families, with a large constant) *)
+StepBound == st.steps <= 400 * (NTok + 2)
 
 ---------------------------------------------------------------------------
 (* REPLAY: one line per finished behaviour, for the Rust harness *)
